@@ -10,15 +10,21 @@ Definition chain_structure (gh : N) (n : node) : Prop :=
   (exists g, get_block n gh = Some g /\ b_height g = 0) /\
   (forall h b, get_block n h = Some b -> h <> gh ->
      exists p, get_block n (prev_hash b) = Some p /\ b_height b = b_height p + 1) /\
-  (* (b) the height index is exactly the main chain, from genesis to the block [top], nothing above it *)
-  (exists t, get_block n (top n) = Some t /\
-     get_topo n (b_height t) = Some (top n) /\
-     get_topo n 0 = Some gh /\
-     (forall ht, b_height t < ht -> get_topo n ht = None) /\
-     (forall ht, ht <= b_height t ->
-        exists y yb, get_topo n ht = Some y /\ get_block n y = Some yb /\ b_height yb = ht /\
-                     (0 < ht -> get_topo n (ht - 1) = Some (prev_hash yb)))).
+  (* (c) the tip fields describe the stored block [top] *)
+  (exists t, get_block n (top n) = Some t /\ b_height t = top_h n /\ b_cd t = top_cd n) /\
+  (* (b) the height index is exactly the main chain: entries for the heights 0..top_h, genesis to [top], each the
+     parent of the next, nothing above top_h *)
+  get_topo n (top_h n) = Some (top n) /\
+  get_topo n 0 = Some gh /\
+  (forall ht, top_h n < ht -> get_topo n ht = None) /\
+  (forall ht, ht <= top_h n ->
+     exists y yb, get_topo n ht = Some y /\ get_block n y = Some yb /\ b_height yb = ht /\
+                  (0 < ht -> get_topo n (ht - 1) = Some (prev_hash yb))).
 
+(* every alternative tip entry is filed under the hash of the block it names, with that block's height and weight *)
+Definition tips_exact (n : node) : Prop :=
+  forall k tp, In (k, tp) (tips n) ->
+    k = t_hash tp /\ exists tb, get_block n (t_hash tp) = Some tb /\ b_height tb = t_height tp /\ b_cd tb = t_cd tp.
 
 (* the hashes met when following prev_hash [k] times from [x] (stops early at a hash that is not stored) *)
 Fixpoint walk (bl : list (N * block)) (k : nat) (x : N) : list N :=
